@@ -312,6 +312,13 @@ def family_f16():
     add([I.assign(I.name("a"), I.site(k())), I.assign(I.name("b"), I.read("UNDEF_G")), I.ret(I.read("b"))], "undef_used")
     k = K()
     add([I.for_(I.name("i"), k(), [I.if_(k(), [I.expr(I.call(k(), I.read("UNDEF_G")))])]), I.ret(I.site(k()))], "undef_in_loop")
+    # ... in functions that also have a tagged variable (probed through its tag only)
+    k = K()
+    add([I.ann("a", "@T", I.site(k())), I.assign(I.name("b"), I.read("UNDEF_G")), I.ret(I.read("b"))], "undef_used_tagged")
+    progs[-1]["cat"] = "T"
+    k = K()
+    add([I.ann("a", "@T", I.site(k())), I.if_(k(), [I.assign(I.name("b"), I.read("UNDEF_G")), I.seen("b")]), I.ret(I.site(k()))], "undef_cond_tagged")
+    progs[-1]["cat"] = "T"
     k = K()
     add([I.try_([I.assign(I.name("b"), I.read("UNDEF_G"))], [I.handler("err", [I.assign(I.name("h"), I.site(k()))], typ="NameError")]),
          I.ret(I.site(k()))], "undef_caught")
